@@ -534,7 +534,7 @@ func TestC06(t *testing.T) {
 }
 
 func TestC07(t *testing.T) {
-	rec := ev.New("C07", ruleValues+"each value is encoded canonically with 1..6 well-formed unknown fields (numbers outside the schema incl. >= 2^26 and inside extension ranges but not declared, wire types 0/1/2/5) inserted at random positions at every nesting level; oracle: Unmarshal ok, Size()==len(Marshal()), and the reference decode of the re-marshaled bytes carries byte-identical unknown fields at every level and an equal known part; non-trivial = >= 1 unknown field; distinct by (type, bytes)")
+	rec := ev.New("C07", ruleValues+"each value is encoded canonically with 1..6 well-formed unknown fields (numbers outside the schema incl. >= 2^26 and inside extension ranges but not declared, wire types 0/1/2/5) inserted at every nesting level and interleaved with the known fields (field order permuted); oracle: Unmarshal ok, Size()==len(Marshal()), and the reference decode of the re-marshaled bytes carries byte-identical unknown fields at every level and an equal known part; non-trivial = >= 1 unknown field; distinct by (type, bytes)")
 	defer rec.Write()
 	useRecorder(rec)
 	defer func() { t.Log(rec.Summary()); fmt.Print(rec.SurveyReport()) }()
@@ -547,7 +547,7 @@ func TestC07(t *testing.T) {
 		mt := rapid.SampledFrom(mine).Draw(rt, "type")
 		v, _ := canon(genDyn(rt, mt.Desc, 3, genOpts{runtime: mt.Info.Runtime, requiredProb: 10, maxMap: 1}))
 		var st varStats
-		c := &BCase{Type: mt.Key(), Bytes: encodeVariant(rt, v, varOpts{unknowns: true}, &st, 0)}
+		c := &BCase{Type: mt.Key(), Bytes: encodeVariant(rt, v, varOpts{unknowns: true, permute: true}, &st, 0)}
 		c.Note = fmt.Sprintf("unknown fields inserted: %d", st.unknown)
 		rec.Eval(1)
 		rec.Class("variant/" + mt.Info.Variant)
@@ -632,7 +632,7 @@ func TestC10(t *testing.T) {
 		mt := rapid.SampledFrom(mine).Draw(rt, "type")
 		v, _ := canon(genDyn(rt, mt.Desc, 3, genOpts{runtime: mt.Info.Runtime, requiredProb: 10, maxMap: 3}))
 		var st varStats
-		c := &BCase{Type: mt.Key(), Bytes: encodeVariant(rt, v, varOpts{unknowns: true}, &st, 0)}
+		c := &BCase{Type: mt.Key(), Bytes: encodeVariant(rt, v, varOpts{unknowns: true, permute: true, mapShape: true}, &st, 0)}
 		f, nt := oracleC10(c)
 		rec.Eval(1)
 		rec.Class("variant/" + mt.Info.Variant)
